@@ -5,6 +5,7 @@ import (
 	"encoding/binary"
 	"encoding/hex"
 	"encoding/json"
+	"fmt"
 	"os"
 	"strings"
 
@@ -461,6 +462,7 @@ func c04Encap(c *h.Ctx) {
 		}
 		return pk
 	}
+	var heldEncap [][2][]byte
 	try := func(cat_ string, data []byte) {
 		var k type3.EncapKey
 		var err error
@@ -483,6 +485,9 @@ func c04Encap(c *h.Ctx) {
 		}
 		id, kem, kdf, aead, pk := k.VerifFields()
 		re := k.Marshal()
+		if len(heldEncap) < 400 {
+			heldEncap = append(heldEncap, [2][]byte{re, append([]byte{}, re...)})
+		}
 		c.Case(cat_, true, "dec_encap", [][]byte{data, {v}}, [][]byte{h.StOK, re, {id}, u16b(kem), pk, u16b(kdf), u16b(aead)})
 		// decoding the encoding of a well-formed value returns that value: the fields are those laid out in the bytes
 		if n := sizes[kem]; len(data) >= 3+n+4 && (id != data[0] || kem != binary.BigEndian.Uint16(data[1:]) || !bytes.Equal(pk, data[3:3+n]) ||
@@ -518,6 +523,15 @@ func c04Encap(c *h.Ctx) {
 	for i := 0; i < 200; i++ {
 		try("encap:random", rnd(c, c.Rng.Intn(80)))
 	}
+	// the encodings handed out above, after all the later ones were made: decode(encode(v)) = v needs encode(v) to stay
+	// encode(v)
+	for i, hp := range heldEncap {
+		if !bytes.Equal(hp[0], hp[1]) {
+			c.Violation("encap key: an encoding returned by Marshal changed when other keys were encoded afterwards", map[string]any{"index": i, "was": h.Hex(hp[1]), "now": h.Hex(hp[0])})
+			break
+		}
+	}
+	c.Count("encap:held-encodings", len(heldEncap), "")
 }
 
 // ---- generic batch --------------------------------------------------------------------------
@@ -624,6 +638,33 @@ func c04Batch(c *h.Ctx) {
 		r := new(batched.BatchedTokenRequest)
 		if !r.Unmarshal(enc) || !eqFields(bitemsOuts(r)[1:], args) {
 			c.Violation("batch request: decode(encode(l)) = l", map[string]any{"n": shape[1], "type": shape[0], "encoded_len": len(enc)})
+		}
+	}
+	// a request object handed out by the batch CLIENT (possibly already marshalled) reused as decode target: Marshal
+	// afterwards is the canonical encoding of what was decoded, not of what the object held before
+	for rep := 0; rep < 6; rep++ {
+		var l1, l2 []tokens.TokenRequestWithDetails
+		for i := 0; i < 1+rep%3; i++ {
+			r, _ := mk(1 + (rep+i)%2)
+			l1 = append(l1, r)
+		}
+		for i := 0; i < 1+(rep+1)%3; i++ {
+			r, _ := mk(1 + (rep+i+1)%2)
+			l2 = append(l2, r)
+		}
+		o, err1 := batched.BatchedClient{}.CreateTokenRequest(l1)
+		o2, err2 := batched.BatchedClient{}.CreateTokenRequest(l2)
+		if err1 != nil || err2 != nil {
+			continue
+		}
+		if rep%2 == 0 {
+			o.Marshal()
+		}
+		enc2 := append([]byte{}, o2.Marshal()...)
+		ok := o.Unmarshal(enc2)
+		c.Count("batch:client-made-object-reused-as-decode-target", 1, fmt.Sprint(rep))
+		if !ok || !bytes.Equal(o.Marshal(), enc2) {
+			c.Violation("batch request: Marshal after Unmarshal on a reused object (one handed out by the batch client) returns the encoding of the decoded list", map[string]any{"previous_elements": len(l1), "decoded_elements": len(l2)})
 		}
 	}
 	for _, enc := range sampleEnc {
